@@ -618,6 +618,12 @@ def judge(case, hl, ml, stderr=""):
                 out.append(("getter-reads-beyond-vector:" + op, "SoPlex_%s(dim=%s) hands out elements beyond the %d the C++ getter delivered "
                             "(read past the end of the re-dimensioned temporary): C=%s C++=%s" % (op, d.get("args"), nvec, c[:200], x[:200]), j))
             x = None
+        if x is not None and op in ("getPrimalReal", "getDualReal", "getRedCostReal") and x not in ("-", ".") and \
+                d.get("args", "").isdigit() and len(x.split(",")) > int(d["args"]):
+            # (sanitizer build: only the first overflow at a code location is reported; the later ones show up here)
+            out.append(("cpp-array-getter-stores-beyond-dim:" + op, "the C++ member %s(array, dim=%s) stores %d elements (LP %s x %s, status %s)" % (
+                op, d["args"], len(x.split(",")), pre_of(d)[0], pre_of(d)[1], pre_of(d)[7]), j))
+            x = None
         if "canary" in d:
             out.append(("canary:" + op, "SoPlex_%s wrote in front of an array argument" % op, j))
         # (a) returned values
